@@ -128,15 +128,45 @@ def c17(ctx, config="all"):
         if len(tgt) != 1:
             rep.violation(short + "|must-pass-leading-zero", where, "expected exactly one call to try_from_be_slice (%d)" % len(tgt))
             continue
-        e1 = edges_matching(v, r"is_empty", True)
-        e2 = edges_matching(v, r"Eq\(\*?\w+\[0\],0\)", False)
-        if not e1 or not e2:
-            rep.violation(short + "|must-pass-leading-zero", where, "the `!bytes.is_empty() && bytes[0] == 0` test was not found")
-        elif reachable_without(v, tgt[0], set(e1) | set(e2)):
+        # the decisions that can end in LeadingZero and look at the payload the parser receives -- however they are
+        # written (`!bytes.is_empty() && bytes[0] == 0`, `bytes.first() == Some(&0)`, `if let [0, ..] = bytes`)
+        from .flag import Bwd
+        from .. import total as _total
+        tt = v.blocks[tgt[0]]["term"]
+        payload = _total.Totality._value_root(None, v, tt["args"][0]) if tt["args"] else None
+        lz_blocks = {bi for bi in v.reachable for st_ in v.blocks[bi]["stmts"]
+                     if st_["s"] == "assign" and st_["rv"]["r"] == "agg" and st_["rv"].get("variant") == "LeadingZero"}
+
+        def reaches(src, dsts):
+            seen, stk = set(), [src]
+            while stk:
+                x = stk.pop()
+                if x in dsts:
+                    return True
+                if x in seen:
+                    continue
+                seen.add(x)
+                stk.extend(v.succ.get(x, []))
+            return False
+        decisions = set()
+        for bi in sorted(v.reachable):
+            t_ = v.blocks[bi]["term"]
+            if t_["t"] != "switch" or not lz_blocks or not reaches(bi, lz_blocks):
+                continue
+            bw = Bwd(v)
+            bw.operand(t_["discr"], bi)
+            if payload is not None and payload in bw.seen:
+                decisions.add(bi)
+        removed = {(d, s_) for d in decisions for s_ in v.succ.get(d, [])}
+        if not lz_blocks or not decisions:
+            rep.violation(short + "|must-pass-leading-zero", where, "no decision on the payload bytes that can end in "
+                          "LeadingZero was found")
+        elif reachable_without(v, tgt[0], removed):
             rep.violation(short + "|must-pass-leading-zero", where, "a path reaches try_from_be_slice without passing the "
                           "leading-zero test: a non-minimal RLP integer is accepted")
         else:
-            rep.ok(short + "|must-pass-leading-zero", where, "every path passes is_empty()==true or bytes[0]==0 -> false")
+            rep.ok(short + "|must-pass-leading-zero", where, "every path to the parser passes %d decision(s) on the payload "
+                                                              "that can end in LeadingZero" % len(decisions))
     rep.analysed = {"build_config": config, "decoders": n}
     if config.startswith("all"):
         rep.floor("decoders", n, 9)
